@@ -360,7 +360,7 @@ def plan_C20(b, tier, seed):
 PLANS = {"C16": plan_C16, "C13": plan_C13, "C14": plan_C14, "C06": plan_C06, "C20": plan_C20, "C18": plan_C18, "C17": plan_C17, "C05": plan_C05, "C09": plan_C09, "C10": plan_C10, "C11": plan_C11, "C19": plan_C19, "C07": plan_C07, "C08": plan_C08, "C03": plan_C03, "C04": plan_C04, "C12": plan_C12, "C01": plan_C01, "C02": plan_C02, "C15": plan_C15}
 
 RULES = {
- "C16": "B: the configuration dumpers are GENERATED from the source text of /repo (every #[derive(MontConfig)] struct with its declared attributes, every FpK<..Config> type, every impl of SWCurveConfig / TECurveConfig / GLVConfig / WBConfig / Bls12Config / BnConfig / BW6Config / MNT4Config / MNT6Config in the 7 test-curves modules and all 26 curve crates, ~150 configuration items) and read every constant through the public traits; TLC evaluates the defining equation of every constant with the specification's own arithmetic: modulus prime (Miller-Rabin, 12 bases) and equal to the declared attribute, bit size, spare bit, R, R2, INV, two-adicity, trace and the derived halves, generator a quadratic non-residue, 2-adic and large-subgroup roots = generator power with EXACT orders; X^d - nonresidue irreducible at every tower level, every Frobenius table entry = g^(p^i) / g (and (g^2)^(p^i) / g^2) computed by exponentiation in the tower, cubic-extension Tonelli-Shanks constants; curves non-singular, generator on the curve with r G = O, r prime, cofactor inverse, h r in the Hasse interval and annihilating sampled points; GLV: endomorphism(P) = lambda P on the generator and sampled subgroup points, lattice rows in the kernel lattice, det = r, short basis; WB/SWU: Z non-square, A'B' # 0, isogeny maps E' to E and is a group homomorphism on sampled points; pairing families: BLS12 r(x), p(x) and twist b' = b xi^(+-1), BN p(x), r(x), ate digits, twist Frobenius constants, BW6 r(x), loop counts, MNT twist coefficients, ate loop count = t - 1, final exponent Phi_k(q) = r (w1 q + w0)", "C13": "M: the specification's expand_message_xmd (incl. oversize DST) and hash_to_field reproduce the 30 expand_message_xmd vectors (SHA-256 / SHA-512, 38- and 256-byte DSTs) and the 10 BLS12-381 G1/G2 hash_to_field vectors of RFC 9380 inside TLC; B: seeded calls of the real DefaultFieldHasher (messages of 0..300 bytes, DSTs of 0, 1, 43, 255, 256, 280/300 bytes, 1..5 elements, Fq / Fq2 / several prime fields, SHA-256 and SHA-512), SWUMap on boundary and random u (0, small, p-1, ...), WBMap and the full hash_to_curve for BLS12-381 G1 and G2: TLC recomputes hash_to_field, checks the SWU point through the RFC's defining relation (x = x1 if g(x1) square else Z u^2 x1, y^2 = g(x), sgn0(y) = sgn0(u)), applies the isogeny as a rational map, adds with its own group law, clears the cofactor with h_eff and checks subgroup membership and determinism; Elligator 2 on Bandersnatch (the one shipped Elligator2Config): the map on 0, +-1, the roots of the exceptional denominator 1 + Z u^2, inputs with g(x1) = 0 and s = -1, boundary and random u, decided by the RFC relation (x = x1 / x2 by squareness of g(x1), y^2 = g(x), sgn0(y), Edwards point (s/t, (s-1)/(s+1)) or (0,1)), and hash_to_curve = h (map(u0) + map(u1)) with the specification's Edwards law",
+ "C16": "B: the configuration dumpers are GENERATED from the source text of /repo (every #[derive(MontConfig)] struct with its declared attributes, every FpK<..Config> type, every impl of SWCurveConfig / TECurveConfig / GLVConfig / WBConfig / Bls12Config / BnConfig / BW6Config / MNT4Config / MNT6Config in the 7 test-curves modules and all 26 curve crates, ~150 configuration items) and read every constant through the public traits; TLC evaluates the defining equation of every constant with the specification's own arithmetic: modulus prime (Miller-Rabin, 12 bases) and equal to the declared attribute, bit size, spare bit, R, R2, INV, two-adicity, trace and the derived halves, generator a quadratic non-residue, 2-adic and large-subgroup roots = generator power with EXACT orders; X^d - nonresidue irreducible at every tower level, every Frobenius table entry = g^(p^i) / g (and (g^2)^(p^i) / g^2) computed by exponentiation in the tower, cubic-extension Tonelli-Shanks constants; curves non-singular, generator on the curve with r G = O, r prime, cofactor inverse, h r in the Hasse interval and annihilating sampled points; GLV: endomorphism(P) = lambda P on the generator and sampled subgroup points, lattice rows in the kernel lattice, det = r, short basis; WB/SWU: Z non-square, A'B' # 0, isogeny maps E' to E and is a group homomorphism on sampled points; pairing families: BLS12 r(x), p(x) and twist b' = b xi^(+-1), BN p(x), r(x), ate digits, twist Frobenius constants, BW6 r(x), loop counts, MNT twist coefficients, ate loop count = t - 1, final exponent Phi_k(q) = r (w1 q + w0); Montgomery forms A (a - d) = 2 (a + d), B (a - d) / 4 a square; Elligator 2: Z non-square, 1 / B^2, A / B, a B = A + 2, d B = A - 2", "C13": "M: the specification's expand_message_xmd (incl. oversize DST) and hash_to_field reproduce the 30 expand_message_xmd vectors (SHA-256 / SHA-512, 38- and 256-byte DSTs) and the 10 BLS12-381 G1/G2 hash_to_field vectors of RFC 9380 inside TLC; B: seeded calls of the real DefaultFieldHasher (messages of 0..300 bytes, DSTs of 0, 1, 43, 255, 256, 280/300 bytes, 1..5 elements, Fq / Fq2 / several prime fields, SHA-256 and SHA-512), SWUMap on boundary and random u (0, small, p-1, ...), WBMap and the full hash_to_curve for BLS12-381 G1 and G2: TLC recomputes hash_to_field, checks the SWU point through the RFC's defining relation (x = x1 if g(x1) square else Z u^2 x1, y^2 = g(x), sgn0(y) = sgn0(u)), applies the isogeny as a rational map, adds with its own group law, clears the cofactor with h_eff and checks subgroup membership and determinism; Elligator 2 on Bandersnatch (the one shipped Elligator2Config): the map on 0, +-1, the roots of the exceptional denominator 1 + Z u^2, inputs with g(x1) = 0 and s = -1, boundary and random u, decided by the RFC relation (x = x1 / x2 by squareness of g(x1), y^2 = g(x), sgn0(y), Edwards point (s/t, (s-1)/(s+1)) or (0,1)), and hash_to_curve = h (map(u0) + map(u1)) with the specification's Edwards law",
  "C14": "the harness is built a second time with the parallel feature of ark-ff / ark-ec / ark-poly / ark-serialize / ark-std; the SAME TLC-emitted transitions and recorded traces that decide C01/C03/C04/C05/C06/C07/C08/C17/C18 on the serial build are replayed inside rayon pools of 1, 2, 3, 4, 7, 16 threads (thorough: 1..9, 12, 13, 16, 17, 33) and judged by the same specification: FFT / IFFT of all domain kinds for every input length up to 32 and for sizes 32..128 (thorough 512; these pass the 128-element parallel-chunk threshold) incl. cosets, Lagrange coefficients, element tables, polynomial evaluation over domains, evaluation / linear operations / products / quotients of polynomials with 15..300 coefficients (thorough 1030; lengths around every power of two, where the chunked Horner evaluation and the parallel iterators split), multiplication and division, batch inversion, sum of products, batch normalisation, scalar multiplication tables, MSM entry points and accumulators, multi-pairings, container / batched validity checks",
  "C06": "B: seeded programs on every pairing engine (BLS12-381 M-twist, BLS12-377 D-twist, BN254, BW6-761, BW6-767, MNT4-298/753, MNT6-298/753): registers of G1, G2, GT are loaded with known multiples of the generators (scalars 0, 1, 2, r-1, small, random), combined with add / neg / scalar multiplication, paired (single pairing, multi-pairing of 0,1,2,3,4,5,9 pairs, prepared inputs, Miller loop + final exponentiation, product of single pairings) and combined in GT (mul, inverse, power); after every step the set of registers equal to the written one, its identity-ness and - for GT - order-divides-r / Valid::check are logged and TLC requires the partition to be the partition of the discrete logarithms a*b. non-trivial = written register is not the identity",
  "C20": "A: for 8 moduli of the zoo (1, 2, 4, 6, 13 limbs; with / without spare bit; Mersenne 2^127-1, 2^255-19, Goldilocks), derived and hand-written configuration: TLC generates every literal sign x {decimal, 0x, 0X, 0o, 0O, 0b, 0B} x {0, 2 leading zeros} x 21 values (0, 1, 2, 10, 15, 16, 255, 2^32, 2^64-1, 2^64, 2^64+1, (p-1)/2, p-2, p-1, p, p+1, 2p, 2p+1, 2^(64N-1), (2^64N)/3, 2^(64N)-1) with the value it must denote; all ~800 literals per modulus are compiled as MontFp! / BigInt! constants and the constant's raw Montgomery limbs are compared with the run-time element of the same value; plus the derive macro's limb count, modulus limbs, R, R2, INV, bit size, two-adicity, generator and 2-adic root against their definitions",
@@ -407,7 +407,7 @@ HOOK_COMMITS = ["b2d3621", "63ec7b9", "7c991e8"]
 NOT_APPLICABLE = {}
 META = {
  "C16": {"text": "Trace_Config.tla states, per kind of configuration item, the equations its constants are documented to satisfy, over the same BigNat / Tower / Curve / H2C modules that define the arithmetic of the other machines; the trace is the dump of every constant of every configuration found in the source tree, one event per item, and TLC names the equation that fails. There is no state machine behind a table of constants: the 'behaviour' validated is the constant table itself, which is the degenerate case of trace validation (stated in DESIGN.md).",
-         "note": "GENERATOR is checked to be a quadratic non-residue and to yield roots of the exact orders, not to generate the whole multiplicative group (needs the factorisation of p - 1). Primality is Miller-Rabin with 12 fixed bases. Elligator2 / Montgomery-form parameters and the BW6 base-field polynomial (h_t, h_y) are not yet covered. Sampled points: 3 per curve per seed."}, "C13": {"text": "H2C.tla is an independent implementation of RFC 9380 (expand_message_xmd, hash_to_field, the simplified SWU map as a relation, sgn0, isogeny evaluation, hash_to_curve = clear_cofactor(iso(map(u0)) + iso(map(u1)))) over an abstract hash bound to the JVM's SHA-2 and validated inside TLC by the RFC's own vectors; traces of the real code are validated against it.",
+         "note": "GENERATOR is checked to be a quadratic non-residue and to yield roots of the exact orders, not to generate the whole multiplicative group (needs the factorisation of p - 1). Primality is Miller-Rabin with 12 fixed bases. Montgomery-form and Elligator 2 parameters are covered (MontCurveConfig only up to the square class that 'birationally equivalent' determines); the BW6 base-field polynomial (h_t, h_y) is not. Sampled points: 3 per curve per seed."}, "C13": {"text": "H2C.tla is an independent implementation of RFC 9380 (expand_message_xmd, hash_to_field, the simplified SWU map as a relation, sgn0, isogeny evaluation, hash_to_curve = clear_cofactor(iso(map(u0)) + iso(map(u1)))) over an abstract hash bound to the JVM's SHA-2 and validated inside TLC by the RFC's own vectors; traces of the real code are validated against it.",
          "note": "SHA-2 itself is not modelled. Suites: BLS12-381 G1 / G2 with SHA-256 (test-curves); hash_to_field also on other fields and SHA-512, where the library's Z_pad length differs from the RFC (known finding). Elligator 2: the hash_to_curve check of that suite takes the two field elements as logged, because hash_to_field for a 255-bit field is affected by the Z_pad finding. Toy SWU configurations are not enumerated (the exceptional inputs u = 0 etc. are in the boundary alphabet)."},
  "C14": {"text": "The specification has no notion of threads: every action's result is defined by the serial mathematical definition, so the thread count is an argument the result must not depend on. The parallel build is run inside explicit rayon pools of each size and its behaviour must be a behaviour of the same machines (exhaustive toy transitions + full-size traces). The parallel FFT splits whenever log n > log2(threads) and batch inversion chunks down to 1 element, so toy sizes already reach the splitting arithmetic; sizes up to 128/512 reach the 128-element chunk threshold of compute_powers and the degree-aware paths.",
          "note": "rayon's scheduler is not modelled as interleavings (the parallel code is data-parallel over disjoint chunks; races would be a memory-safety question outside this technique). Pool sizes larger than the input are included (16 and 33 threads on inputs of 2..8 elements)."},
